@@ -8,7 +8,7 @@
      alias_bij d    : bij (aliases d)
      alias_nodes d  : every aliased id is positive and `is_node (gr d) id = true`. *)
 From Agdb Require Import Bytes DbValue Graph DbModel Search Queries Revisions
-  ImapProofs AliasProofs QStepProofs AliasQueryProofs
+  ImapProofs AliasProofs QStepProofs AliasQueryProofs AliasRollbackProofs
   DbInvProofs QueryInvProofs SearchLiveProofs HistoryInvProofs HistoryExamples.
 Open Scope Z_scope.
 
@@ -137,6 +137,39 @@ Theorem C10_empty_alias_first_no_effect :
   exec rv d (InsertAliases (Ids (q :: l)) ([] :: als)) = (d, QErr ENotAllowed).
 Proof. exact exec_insert_aliases_empty_first. Qed.
 Print Assumptions C10_empty_alias_first_no_effect.
+
+(* ... and in general, on the repaired code (alias-steal undo record): a REJECTED InsertAliases query
+   (empty alias, edge id, unknown id, ... at any position) returns an error and has no effect:
+   db_equiv d2 d = same graph, values, indexes and (empty) undo stack, and an alias map that answers
+   every lookup, in both directions, as before *)
+Theorem C10_rejected_insert_aliases_no_effect :
+  forall d ids (als : list bytes),
+  alias_bij d -> undo d = [] -> step_is_ok (insert_aliases rv_fixed d ids als) = false ->
+  exists d2 e, exec rv_fixed d (InsertAliases ids als) = (d2, QErr e) /\ db_equiv d2 d.
+Proof. exact (insert_aliases_rejected_no_effect rv_fixed eq_refl). Qed.
+Print Assumptions C10_rejected_insert_aliases_no_effect.
+
+Theorem C10_empty_alias_no_effect :
+  forall d ids (als : list bytes),
+  alias_bij d -> undo d = [] -> In ([] : bytes) als ->
+  exists d2 e, exec rv_fixed d (InsertAliases ids als) = (d2, QErr e) /\ db_equiv d2 d.
+Proof.
+  intros d ids als Hb Hu Hin. apply (insert_aliases_rejected_no_effect rv_fixed eq_refl d ids als Hb Hu).
+  now apply insert_aliases_empty_rejected.
+Qed.
+Print Assumptions C10_empty_alias_no_effect.
+
+(* the pinned code (before fix ca1154f: no undo record for the previous holder of a stolen alias):
+   the same rejected query loses the alias of node 1 *)
+Theorem C10_steal_pinned_refuted :
+  let dp := exec_all rv_pinned db_new c10_steal_history in
+  let df := exec_all rv_fixed db_new c10_steal_history in
+  imap_value (aliases dp) [x78] = Some 1 /\
+  snd (exec rv_pinned dp c10_steal_query) = QErr ENotAllowed /\
+  imap_value (aliases (fst (exec rv_pinned dp c10_steal_query))) [x78] = None /\
+  exec rv_fixed df c10_steal_query = (df, QErr ENotAllowed).
+Proof. exact c10_steal_witness. Qed.
+Print Assumptions C10_steal_pinned_refuted.
 
 (* after the fix: an edge id anywhere in an InsertAliases query makes the query fail *)
 Theorem C10_edge_alias_rejected :
